@@ -21,7 +21,8 @@ def c01(F, R):
               "loops are finite-iterator or progress loops; the call graph is acyclic. Plus the gate shapes (G1), the per-variant size gate (G2), "
               "tag accept-sets (V2) and the bounded FlexVec chain walk.")
     e2_guards.guard_rules(F, R, VALIDATE_ROOTS, "validate", 300)
-    e5_formulas.gate_rules(F, R)
+    e1_layout.layout_rules(F, R)  # the contract discharges rely on MIN_SIZE / DATA_MIN_SIZES / DATA_OFFSET being the real layout
+    e5_formulas.base_formula_rules(F, R)
     e6_generated.generated_rules(F, R, {"validate"})
     e6_generated.tag_accept_rules(F, R)
     e7_containers.vec_string_validators(F, R)
@@ -93,6 +94,8 @@ def c06(F, R):
     e3_io.recv_rules(F, R, "blocking")
     e3_io.recv_rules(F, R, "async")
     errkind_inventory(F, R)
+    e1_layout.layout_rules(F, R)  # shortfall gates compare against MIN_SIZE / DATA_MIN_SIZES: they must be the real minimum sizes
+    e5_formulas.base_formula_rules(F, R)
 
 
 def errkind_inventory(F, R):
@@ -140,7 +143,19 @@ def c07(F, R):
     e3_io.write_loop_rules(F, R, "blocking")
     e3_io.read_rules(F, R, "blocking")
     e3_io.window_rules(F, R)
+    framing_rules(F, R)
     e9_witness.witness_rules(F, R)
+
+
+def framing_rules(F, R):
+    """The receive loops are only as good as the framing contract of validate (C06 clauses): prefixes are InsufficientSize."""
+    e5_formulas.gate_rules(F, R)
+    e6_generated.generated_rules(F, R, {"validate", "size"})
+    e7_containers.vec_string_validators(F, R)
+    e7_containers.flex_reader(F, R)
+    e7_containers.flex_validator(F, R)
+    e5_formulas.size_formula_rules(F, R)
+    e7_containers.flex_size(F, R)
 
 
 def c08(F, R):
@@ -151,6 +166,7 @@ def c08(F, R):
     e3_io.read_rules(F, R, "async")
     e3_io.guard_rules(F, R)
     e3_io.window_rules(F, R)
+    framing_rules(F, R)
     e9_witness.witness_rules(F, R)
 
 
@@ -175,7 +191,10 @@ def c10(F, R):
     e3_io.guard_rules(F, R)
     e3_io.window_rules(F, R)
     e2_guards.guard_rules(F, R, RECV_ROOTS, "recv", 100)
-    e7_containers.flex_reader(F, R)
+    framing_rules(F, R)
+    e1_layout.layout_rules(F, R)
+    e5_formulas.base_formula_rules(F, R)  # view extents: a message handed out lies inside the bytes received
+    e6_generated.generated_rules(F, R, {"ptr"})
     e9_witness.witness_rules(F, R)
 
 
@@ -191,6 +210,25 @@ def c11(F, R):
     e7_containers.empty_emplacers(F, R)
     e7_containers.filling_emplacers(F, R)
     e2_guards.guard_rules(F, R, lambda n: n.startswith("__root_validate__K_Flat") or n.startswith("__root_size__K_Flat"), "vecstring", 20)
+    no_shadowing(F, R)
+
+
+def no_shadowing(F, R):
+    """FlatVec / FlatString add no inherent methods: every operation is the Deref target's (stavec's), so its refusal semantics are not overridden."""
+    inh = []
+    for d, f in F.fns.items():
+        if f["krate"] != "flatty_containers":
+            continue
+        par = f["parent"]
+        if par.startswith("flatty_containers::vec::FlatVec::<") or par.startswith("flatty_containers::string::FlatString::<") or \
+           par in ("flatty_containers::vec::FlatVec", "flatty_containers::string::FlatString"):
+            inh.append(d)
+    impls = [im for im in F.impls if im["krate"] == "flatty_containers" and im["trait"] is None and
+             im["self_adt"] in ("flatty_containers::vec::FlatVec", "flatty_containers::string::FlatString")]
+    meths = [a["name"] for im in impls for a in im["assoc"] if a["kind"] == "fn"]
+    R.ob("B1.no-inherent-methods", "FlatVec/FlatString", "inherent-fns", not inh and not meths,
+         "FlatVec and FlatString define no inherent methods of their own (found %s): push/push_str/... are stavec's, unshadowed" % (sorted(inh) + meths),
+         where="containers/src/vec.rs, string.rs")
 
 
 def c12(F, R):
@@ -210,6 +248,8 @@ def c13(F, R):
               "refusals of FlatVec/FlatString are stavec's (trusted), flatty's emplacers map them to InsufficientSize. 'As if never happened' for later histories is NOT decided.")
     e7_containers.flex_writers(F, R)
     e7_containers.filling_emplacers(F, R)
+    e8_portable.scalar_rules(F, R)  # `offset not representable` relies on L::from_usize being the native checked conversion for portable L
+    no_shadowing(F, R)
 
 
 def c14(F, R):
@@ -221,6 +261,7 @@ def c14(F, R):
     e6_generated.generated_rules(F, R, {"init", "ptr"})
     e7_containers.flex_writers(F, R)
     e7_containers.empty_emplacers(F, R)
+    e1_layout.layout_rules(F, R)
     e9_witness.witness_rules(F, R)
 
 
@@ -234,6 +275,7 @@ def c15(F, R):
     e7_containers.filling_emplacers(F, R)
     e7_containers.flex_writers(F, R)
     errkind_inventory(F, R)
+    e1_layout.layout_rules(F, R)
     e9_witness.witness_rules(F, R)
 
 
@@ -248,6 +290,9 @@ def c17(F, R):
     R.explain("C17 (portable composites): every corpus type implementing Portable has ALIGN 1 and no padding; Portable impls require Portable parameters (incl. the tag); "
               "compile-fail witnesses for the negative cases.")
     e1_layout.portable_rules(F, R)
+    e7_containers.flex_writers(F, R)  # item strides are rounded to ALIGN (= 1 for portable vectors): no padding bytes between items
+    e7_containers.empty_emplacers(F, R)
+    e8_portable.scalar_rules(F, R)
     e9_witness.witness_rules(F, R)
 
 
